@@ -58,6 +58,10 @@ def detect_stage(run, count, what):
     run.add_mc(mc, "XtDetect: trial order, first match, only-source-errors, handle invariants after any detection run")
     raw = os.path.join(WORK, "trace_%s_detect_%s.raw" % (run.pid, run.tier))
     path = os.path.join(WORK, "trace_%s_detect_%s.ndjson" % (run.pid, run.tier))
+    # small-scope exhaustive part: every token sequence of length <= 2 TLC enumerates, in every format's alphabet
+    gen = run_tlc("XtTokens.tla", "XtTokens_2.cfg", workers=4, coverage=False)
+    run.add_mc(gen, "XtTokens: TLC enumerates every token index sequence of length <= 2")
+    os.environ["XT_TOKS"] = write_lines(os.path.join(WORK, "toks_%s_%s.ndjson" % (run.pid, run.tier)), sorted(set(tlc_printed(gen["out"], "TOKS"))))
     summ = run_xtv(["record-detect", raw, count], timeout=3000)
     run.add_harness(summ, "recorded: " + what)
     common.sh(["python3", os.path.join(common.VERIF, "tools", "lib", "sidecond.py"), raw, path], check=True)
@@ -480,6 +484,11 @@ def c07(run):
     run.add_harness(summ, "BMP scalars and surrogate pairs (stride %d; 1 = all 63 488 + 1 048 576) x 2 endiannesses x read sizes 1..6" % _q(run, 97, 1))
     run.assumptions += OBS_ASSUME + ["BOM-less UTF-16/32 text starts with an ASCII character (YAML 1.2 section 5.2); otherwise detection is undefined by the YAML specification"]
     obs_stage(run, "encodings", _q(run, 8, 150), ["C02"], "YAML text in UTF-8/16/32 (LE/BE, +-BOM; ASCII-only and not) x slice + 6 read schedules incl. cuts inside code units x explicit/detected x 3 targets: same verdict and bytes as the UTF-8 text")
+    # small-scope exhaustive part: every YAML token sequence TLC enumerates, in every encoding
+    gen = run_tlc("XtTokens.tla", _q(run, "XtTokens_2.cfg", "XtTokens.cfg"), workers=4, coverage=False)
+    run.add_mc(gen, "XtTokens: TLC enumerates every token index sequence up to the length bound")
+    os.environ["XT_TOKS"] = write_lines(os.path.join(WORK, "toks_c07_%s.ndjson" % run.tier), sorted(set(tlc_printed(gen["out"], "TOKS"))))
+    obs_stage(run, "enctokens", 0, ["C02"], "every sequence of <= 2 (thorough: 3) tokens of the YAML alphabet, as UTF-8 and in UTF-16/32 LE/BE with and without BOM x slice, one-piece reader, byte-by-byte reader: one verdict and one output per text")
     run.exhaustive = True
 
 
